@@ -24,7 +24,8 @@ def secpOps : Ops Nat Secp.Point :=
   { sadd := fun a b => (a + b) % Secp.n, smul := fun a b => a * b % Secp.n, gadd := Secp.add, gneg := Secp.neg,
     act := Secp.mul, base := Secp.G, zeroG := none, szero := 0 }
 
-def pt (s : String) : Secp.Point := Secp.decompress (ofHex s)
+/-- a point as the chain parses it (`Point.publicKey` → `secp256k1.ParsePubKey`): any SEC1 encoding -/
+def pt (s : String) : Secp.Point := Secp.parseSec1 (ofHex s)
 def sca (s : String) : Nat := Secp.fromBytes (ofHex s)
 def pointHex (P : Secp.Point) : String := toHex (Secp.compress P)
 
